@@ -498,6 +498,8 @@ class Evaluator:
         self._memo = {}
         self.effects = []       # opaque calls made during evaluation (may-list, in evaluation order)
         self.const_models = {}         # values of named library constants (path -> term)
+        self.keep_exit_env = False     # eval_loop_body: exit leaves also carry the environment at the exit (key into exit_envs)
+        self.exit_envs = {}
         self.comprehend = True          # a loop that only filters/maps an iterator into a fresh Vec becomes a ('comp', ..) value
         self.summarize_loops = False   # when set, an inner loop is replaced by a havoc of the locals it assigns
         self.no_skip = set()            # loop heads that must be entered rather than summarised
@@ -870,7 +872,7 @@ class Evaluator:
                         val = None
                     finally:
                         self.stop = saved
-                    return ("exit", bb, val)
+                    return ("exit", bb, val) if not self.keep_exit_env else ("exit", bb, val, ("env", id(env), self._stash_env(env)))
             if self.comprehend and visits.get(bb, 0) == 0 and not (self.stop is not None and fn.path == self.stop[0] and bb == self.stop[1]):
                 lp0 = fn.loops()
                 if bb in lp0 and bb not in self.no_skip and not is_await_loop(fn, lp0[bb]):
@@ -929,6 +931,11 @@ class Evaluator:
                 bb = t["target"]
                 continue
             raise Undecided("terminator %s in %s" % (k, fn.path))
+
+    def _stash_env(self, env):
+        k = len(self.exit_envs)
+        self.exit_envs[k] = dict(env)
+        return k
 
     def _comprehend(self, fn, head, body, env, visits, depth, until):
         """`for x in src { ..; if c(x) { acc.push(e(x)) } }` with a fresh accumulator: the loop is the comprehension
